@@ -585,4 +585,184 @@ theorem collect_interleaving (n : Nat) (hn : 0 < n) (ids : Nat → String) (chun
       exact congrFun (List.filterMap_eq_map (f := fun s => (⟨ids j, s⟩ : Msg))) (chunks j)
     rw [this, concatSlot_chunks _ (hne j hj)]
 
+
+/-! ### the executable merge of the oracle produces interleavings (and they exist) -/
+
+theorem Interleaving.cons_nil {β : Type} {srcs : List (List β)} {m : List β}
+    (h : Interleaving srcs m) : Interleaving ([] :: srcs) m := by
+  induction h with
+  | done hall => exact .done (by intro s hs; rcases List.mem_cons.1 hs with rfl | hs; rfl; exact hall s hs)
+  | @step srcs m i x rest hi _ ih =>
+    exact .step (i + 1) x rest (by simpa using hi) (by simpa using ih)
+
+theorem interleaving_flatten {β : Type} : ∀ (srcs : List (List β)), Interleaving srcs srcs.flatten
+  | [] => .done (by simp)
+  | s :: srcs => by
+    induction s with
+    | nil => simpa using (interleaving_flatten srcs).cons_nil
+    | cons x s ih => exact .step 0 x s (by simp) (by simpa using ih)
+
+theorem mergeBy_interleaving {β : Type} :
+    ∀ (sched : List Nat) (srcs : List (List β)), Interleaving srcs (mergeBy sched srcs)
+  | [], srcs => interleaving_flatten srcs
+  | i :: sched, srcs => by
+    unfold mergeBy
+    split
+    · rename_i x rest h
+      exact .step i x rest h (mergeBy_interleaving sched _)
+    · exact mergeBy_interleaving sched srcs
+
+/-! ### coherence of the two forms of a tool -/
+
+/-- the invokable form is the concatenation of the streamable form.  True by construction
+    for a tool with only one form (the packer derives the other); a hypothesis about the
+    user's code for a tool implementing both. -/
+def Coherent (t : Tool) : Prop := ∀ a, packInvoke t a = (packStream t a).bind concatChunks
+
+theorem coherent_of_no_str (t : Tool) (h : t.str = none) : Coherent t := by
+  intro a
+  unfold packInvoke packStream
+  rw [h]
+  cases hi : t.inv with
+  | none => rfl
+  | some f => cases hf : f a <;> simp [Out.bind, hf, concatChunks]
+
+theorem coherent_of_no_inv (t : Tool) (h : t.inv = none) : Coherent t := by
+  intro a
+  unfold packInvoke packStream
+  rw [h]
+  cases hs : t.str with
+  | none => rfl
+  | some g => rfl
+
+theorem coherent_handlerTool (h : Handler) (name : String) : Coherent (handlerTool h name) :=
+  coherent_of_no_str _ rfl
+
+/-! ### answers of calls -/
+
+/-- the tool answering a call (total; meaningful when `resolve` is `some`) -/
+def pick (tools : List (String × Tool)) (handler : Option Handler) (c : Call) : Tool :=
+  (resolve tools handler c).getD ⟨none, none⟩
+
+theorem resolve_pick {tools : List (String × Tool)} {handler : Option Handler} {c : Call}
+    (h : (resolve tools handler c).isSome) : resolve tools handler c = some (pick tools handler c) := by
+  obtain ⟨t, ht⟩ := Option.isSome_iff_exists.1 h
+  simp [pick, ht]
+
+theorem answerI_pick {tools : List (String × Tool)} {handler : Option Handler} {c : Call}
+    {o : Out String} (h : answerI tools handler c = some o) :
+    (resolve tools handler c).isSome ∧ packInvoke (pick tools handler c) c.args = o := by
+  unfold answerI at h
+  cases hr : resolve tools handler c with
+  | none => simp [hr] at h
+  | some t => simp [hr] at h; simp [pick, hr, h]
+
+theorem answerS_pick {tools : List (String × Tool)} {handler : Option Handler} {c : Call}
+    {o : Out (List String)} (h : answerS tools handler c = some o) :
+    (resolve tools handler c).isSome ∧ packStream (pick tools handler c) c.args = o := by
+  unfold answerS at h
+  cases hr : resolve tools handler c with
+  | none => simp [hr] at h
+  | some t => simp [hr] at h; simp [pick, hr, h]
+
+theorem resolve_isSome_of_handler (tools : List (String × Tool)) (h : Handler) (c : Call) :
+    (resolve tools (some h) c).isSome := by
+  unfold resolve; cases lookup tools c.name <;> simp
+
+theorem resolve_none_iff {tools : List (String × Tool)} {handler : Option Handler} {c : Call} :
+    resolve tools handler c = none ↔ lookup tools c.name = none ∧ handler = none := by
+  unfold resolve; cases lookup tools c.name <;> cases handler <;> simp
+
+theorem mapM_ok_length {ε α β : Type} {f : α → Except ε β} :
+    ∀ (l : List α) (r : List β), l.mapM f = .ok r → r.length = l.length
+  | [], r, h => by
+    have : r = [] := by simpa [List.mapM_nil, pure, Except.pure] using h.symm
+    simp [this]
+  | x :: xs, r, h => by
+    simp only [List.mapM_cons] at h
+    cases hx : f x with
+    | error e => rw [hx] at h; simp [bind, Except.bind] at h
+    | ok b =>
+      rw [hx] at h
+      cases hxs : xs.mapM f with
+      | error e => rw [hxs] at h; simp [bind, Except.bind] at h
+      | ok bs =>
+        rw [hxs] at h
+        have : r = b :: bs := by simpa [bind, Except.bind, pure, Except.pure] using h.symm
+        simp [this, mapM_ok_length xs bs hxs]
+
+theorem genTasks_length {F : Facts} {tools : List (String × Tool)} {handler : Option Handler}
+    {assistant : Bool} {calls : List Call} {tasks : List Task}
+    (h : genTasks F tools handler assistant calls = .ok tasks) : tasks.length = calls.length := by
+  unfold genTasks at h
+  split at h
+  · simp at h
+  · split at h
+    · simp at h
+    · exact mapM_ok_length _ _ h
+
+/-- every call of `ToolsNode.Invoke` is a pre-run error or the by-index specification -/
+theorem invoke_cases {F : Facts} (hF : F.Good) (tools : List (String × Tool)) (handler : Option Handler)
+    (assistant : Bool) (calls : List Call) (seen : Nat → Nat) (σ : List Nat)
+    (hσ : σ.Perm (List.range calls.length)) :
+    (∃ e, genTasks F tools handler assistant calls = .error e ∧
+        invoke F tools handler assistant calls seen σ = .err e) ∨
+    (∃ tasks, genTasks F tools handler assistant calls = .ok tasks ∧
+        invoke F tools handler assistant calls seen σ
+          = specRun (fun i s => (⟨idAt tasks i, s⟩ : Msg)) (execWith packInvoke tasks) tasks.length) := by
+  unfold invoke
+  cases h : genTasks F tools handler assistant calls with
+  | error e => exact .inl ⟨e, rfl, rfl⟩
+  | ok tasks =>
+    refine .inr ⟨tasks, rfl, ?_⟩
+    exact conclude_runAll hF _ _ seen _ σ (by rw [genTasks_length h]; exact hσ)
+
+theorem stream_cases {F : Facts} (hF : F.Good) (tools : List (String × Tool)) (handler : Option Handler)
+    (assistant : Bool) (calls : List Call) (seen : Nat → Nat) (σ : List Nat)
+    (hσ : σ.Perm (List.range calls.length)) :
+    (∃ e, genTasks F tools handler assistant calls = .error e ∧
+        stream F tools handler assistant calls seen σ = .err e) ∨
+    (∃ tasks, genTasks F tools handler assistant calls = .ok tasks ∧
+        stream F tools handler assistant calls seen σ
+          = specRun (fun i (cs : List String) => cs.map fun s => sparse tasks.length i ⟨idAt tasks i, s⟩)
+              (execWith packStream tasks) tasks.length) := by
+  unfold stream
+  cases h : genTasks F tools handler assistant calls with
+  | error e => exact .inl ⟨e, rfl, rfl⟩
+  | ok tasks =>
+    refine .inr ⟨tasks, rfl, ?_⟩
+    exact conclude_runAll hF _ _ seen _ σ (by rw [genTasks_length h]; exact hσ)
+
+/-- generic first-failure statement for a list of calls split at the first failing one -/
+theorem spec_first_failure {α β : Type} (run : Tool → String → Out α) (mk : Nat → α → β)
+    (g : Call → Tool) (pre : List Call) (c : Call) (post : List Call)
+    (hpre : ∀ c' ∈ pre, ∃ a, run (g c') c'.args = .ok a) :
+    (∀ e, run (g c) c.args = .err e →
+      specRun mk (execWith run ((pre ++ c :: post).map (taskFor g))) (pre ++ c :: post).length
+        = .err (.tool pre.length e)) ∧
+    (∀ p, run (g c) c.args = .panic p → pre ≠ [] →
+      specRun mk (execWith run ((pre ++ c :: post).map (taskFor g))) (pre ++ c :: post).length
+        = .err (.tool pre.length (.panicked p))) ∧
+    (∀ p, run (g c) c.args = .panic p → pre = [] →
+      specRun mk (execWith run ((pre ++ c :: post).map (taskFor g))) (pre ++ c :: post).length
+        = .panicEscapes p) := by
+  have hlt : pre.length < (pre ++ c :: post).length := by simp
+  have hat : (pre ++ c :: post)[pre.length]'hlt = c := by simp
+  have hexj : execWith run ((pre ++ c :: post).map (taskFor g)) pre.length = run (g c) c.args := by
+    rw [execWith_taskFor run g _ _ hlt, hat]
+  have hexpre : ∀ i, i < pre.length →
+      ∃ a, execWith run ((pre ++ c :: post).map (taskFor g)) i = .ok a := by
+    intro i hi
+    have hi' : i < (pre ++ c :: post).length := by simp; omega
+    rw [execWith_taskFor run g _ _ hi']
+    have : (pre ++ c :: post)[i]'hi' = pre[i] := by simp [List.getElem_append_left hi]
+    rw [this]
+    exact hpre _ (List.getElem_mem hi)
+  refine ⟨fun e he => ?_, fun p hp hne => ?_, fun p hp hnil => ?_⟩
+  · exact specRun_first_err mk _ _ _ hlt hexpre e (.inl (by rw [hexj, he]))
+  · have : pre.length ≠ 0 := by cases pre <;> simp_all
+    exact specRun_first_err mk _ _ _ hlt hexpre _ (.inr ⟨this, p, by rw [hexj, hp], rfl⟩)
+  · subst hnil
+    exact specRun_inline_panic mk _ _ p (by simp) (by simpa using hexj.trans hp)
+
 end EinoV.C17
